@@ -253,6 +253,10 @@ Definition sstep (f : smap) (o : mop) : smap :=
     else fun k => if in_strs k ums then Some e else f k
   | MSet ms e => let ums := map upper ms in fun k => if in_strs k ums then Some e else f k
   | MRemove ms => fun k => if in_strs k ms then None else f k
+  | MAddRaw ms e =>
+    if existsb (fun m => match f m with Some _ => true | None => false end) ms then f
+    else fun k => if in_strs k ms then Some e else f k
+  | MSetRaw ms e => fun k => if in_strs k ms then Some e else f k
   end.
 
 Definition srun (ops : list mop) : smap := fold_left sstep ops (fun _ => None).
@@ -266,7 +270,15 @@ Qed.
 Lemma mstep_spec t f o :
   (forall k, mt_get t k = f k) -> forall k, mt_get (mstep t o) k = sstep f o k.
 Proof.
-  intros H k. destruct o as [ms e|ms e|ms]; simpl.
+  intros H k. destruct o as [ms e|ms e|ms|ms e|ms e]; simpl.
+  5:{ rewrite mt_get_set_all. unfold in_strs. now rewrite H. }
+  4:{ unfold mt_add, mt_registered.
+      assert (E : existsb (fun m => mt_has t m) ms
+                  = existsb (fun m => match f m with Some _ => true | None => false end) ms).
+      { induction ms as [|m l IHl]; simpl; [reflexivity|]. rewrite IHl. unfold mt_has. now rewrite H. }
+      rewrite E. clear E.
+      destruct (existsb (fun m => match f m with Some _ => true | None => false end) ms); [apply H|].
+      rewrite mt_get_set_all. unfold in_strs. now rewrite H. }
   - unfold mt_add, mt_registered, norm_methods.
     assert (E : existsb (fun m => mt_has t m) (map upper ms)
                 = existsb (fun m => match f m with Some _ => true | None => false end) (map upper ms)).
@@ -282,10 +294,12 @@ Qed.
 
 Lemma mstep_nodup t o : NoDup (map fst t) -> NoDup (map fst (mstep t o)).
 Proof.
-  intros H. destruct o as [ms e|ms e|ms]; simpl.
+  intros H. destruct o as [ms e|ms e|ms|ms e|ms e]; simpl.
   - unfold mt_add. destruct (mt_registered t (norm_methods ms)); [exact H | now apply nodup_set_all].
   - now apply nodup_set_all.
   - now apply nodup_remove.
+  - unfold mt_add. destruct (mt_registered t ms); [exact H | now apply nodup_set_all].
+  - now apply nodup_set_all.
 Qed.
 
 Lemma history_lemma : forall ops,
@@ -464,6 +478,20 @@ Proof.
     assert (Hrt : exists ops, r_methods rt = mrun ops).
     { rewrite Forall_forall in H. apply H. eapply nth_error_In; eauto. }
     destruct Hrt as [ops Hops]. exists (ops ++ [MRemove ms]). rewrite mrun_snoc, <- Hops. reflexivity.
+  - unfold rt_remove_obj. destruct (rt_match R pattern flts) as [d|]; [|exact H].
+    destruct (pattern_of_rid R d); [|exact H].
+    destruct (rd_remove (tree R) s false true); [|exact H].
+    destruct (al_get (routes R) s); exact H.
+  - unfold rt_route_method. destruct (rt_match R pattern flts) as [d|]; [|exact H].
+    destruct (nth_error (heap R) d) as [rt|] eqn:E; [|exact H].
+    assert (Hrt : exists ops, r_methods rt = mrun ops).
+    { unfold tables_ok in H. rewrite Forall_forall in H. apply H. eapply nth_error_In; eauto. }
+    destruct Hrt as [ops Hops].
+    destruct (if overwrite then Some _ else mt_add _ _ _) as [t'|] eqn:Et; [|exact H].
+    unfold tables_ok in *. simpl. apply Forall_heap_set; [exact H|]. simpl.
+    destruct overwrite.
+    + injection Et as <-. exists (ops ++ [MSetRaw ms (h, [])]). rewrite mrun_snoc, <- Hops. reflexivity.
+    + exists (ops ++ [MAddRaw ms (h, [])]). rewrite mrun_snoc, <- Hops. simpl. now rewrite Et.
 Qed.
 
 Lemma tables_ok_exec cs : forall R, tables_ok R -> tables_ok (exec_cmds R cs).
